@@ -43,6 +43,46 @@ pub(crate) enum TaggedItemInfo<'a> {
     },
 }
 
+// does the written text end inside a // comment?
+// Only the last line has to be looked at, because the writer never emits a raw line break inside a string.
+fn ends_in_line_comment(text: &str) -> bool {
+    let last_line = text.rsplit('\n').next().unwrap_or("");
+    let mut chars = last_line.chars().peekable();
+    let mut in_string = false;
+    let mut escaped = false;
+    while let Some(c) = chars.next() {
+        if in_string {
+            if escaped {
+                escaped = false;
+            } else if c == '\\' {
+                escaped = true;
+            } else if c == '"' {
+                in_string = false;
+            }
+        } else if c == '"' {
+            in_string = true;
+        } else if c == '/' && chars.peek() == Some(&'/') {
+            return true;
+        } else if c == '/' && chars.peek() == Some(&'*') {
+            // a block comment: continue behind its end, if it ends on this line
+            chars.next();
+            let mut prev = ' ';
+            let mut closed = false;
+            for d in chars.by_ref() {
+                if prev == '*' && d == '/' {
+                    closed = true;
+                    break;
+                }
+                prev = d;
+            }
+            if !closed {
+                return false;
+            }
+        }
+    }
+    false
+}
+
 impl Writer {
     pub(crate) fn new(indent: usize) -> Self {
         Self {
@@ -179,6 +219,12 @@ impl Writer {
                         self.outstring.push_str(tag);
                         self.outstring.push_str(&item_text);
                         if is_block {
+                            // a line comment at the end of the block's content extends to the end of its line
+                            let end_offset = if end_offset == 0 && ends_in_line_comment(&item_text) {
+                                1
+                            } else {
+                                end_offset
+                            };
                             self.add_whitespace(end_offset);
                             self.outstring.push_str("/end ");
                             self.outstring.push_str(tag);
